@@ -392,7 +392,7 @@ hset_count(hset_t *h)
 
 /* ---------- parallel runner ---------- */
 static pid_t
-spawn_worker(int w, int W, long first, long nitems, volatile long *cur, item_fn f, void *arg, int tmo)
+spawn_worker(int w, int W, long first, long nitems, volatile long *cur, item_fn f, void *arg, int tmo, int single)
 {
         pid_t p = fork();
         if (p < 0)
@@ -400,7 +400,7 @@ spawn_worker(int w, int W, long first, long nitems, volatile long *cur, item_fn 
         if (p)
                 return p;
         for (long i = first; i < nitems; i += W) {
-                if (deadline_reached()) {
+                if (deadline_reached() && !single) {
                         __atomic_fetch_add(&S->skipped, (nitems - i + W - 1) / W, __ATOMIC_RELAXED);
                         break;
                 }
@@ -408,6 +408,8 @@ spawn_worker(int w, int W, long first, long nitems, volatile long *cur, item_fn 
                 if (tmo)
                         alarm((unsigned) tmo);
                 f(i, arg);
+                if (single)
+                        break;
         }
         alarm(0);
         stat_add("_tcalls", g_tcalls);
@@ -424,13 +426,14 @@ par_run(long nitems, int W, item_fn f, crash_fn cf, void *arg, int tmo)
         volatile long *cur = mmap(0, sizeof(long) * (size_t) W, PROT_READ | PROT_WRITE,
                                   MAP_SHARED | MAP_ANONYMOUS, -1, 0);
         pid_t *pid = calloc((size_t) W, sizeof *pid);
+        char *retry = calloc((size_t) W, 1); /* slot is re-running one timed-out item alone with a longer limit */
         int live = 0;
         long long skipped0 = S->skipped;
         fflush(stdout);
         fflush(stderr);
         for (int w = 0; w < W; w++) {
                 cur[w] = -1;
-                pid[w] = spawn_worker(w, W, w, nitems, cur, f, arg, tmo);
+                pid[w] = spawn_worker(w, W, w, nitems, cur, f, arg, tmo, 0);
                 live++;
         }
         while (live > 0) {
@@ -449,21 +452,36 @@ par_run(long nitems, int W, item_fn f, crash_fn cf, void *arg, int tmo)
                         continue;
                 live--;
                 pid[w] = 0;
-                if (WIFEXITED(st) && WEXITSTATUS(st) == 0)
-                        continue;
+                long i = cur[w];
+                int was_retry = retry[w];
+                retry[w] = 0;
                 if (WIFEXITED(st) && WEXITSTATUS(st) == 3)
                         DIE("worker reported a framework error");
-                long i = cur[w];
-                int sig = WIFSIGNALED(st) ? WTERMSIG(st) : -WEXITSTATUS(st);
-                if (cf)
-                        cf(i, sig, arg);
+                if (WIFEXITED(st) && WEXITSTATUS(st) == 0) {
+                        if (!was_retry)
+                                continue; /* the slot ran its stripe to the end */
+                } else {
+                        int sig = WIFSIGNALED(st) ? WTERMSIG(st) : -WEXITSTATUS(st);
+                        if (sig == SIGALRM && !was_retry) {
+                                /* a watchdog expiry under load is not yet a hang: the (deterministic) item is re-run with
+                                 * four times the limit before it is reported */
+                                stat_add("items_rerun_after_watchdog", 1);
+                                retry[w] = 1;
+                                pid[w] = spawn_worker(w, W, i, nitems, cur, f, arg, tmo * 4, 1);
+                                live++;
+                                continue;
+                        }
+                        if (cf)
+                                cf(i, sig, arg);
+                }
                 if (i + W < nitems) {
-                        pid[w] = spawn_worker(w, W, i + W, nitems, cur, f, arg, tmo);
+                        pid[w] = spawn_worker(w, W, i + W, nitems, cur, f, arg, tmo, 0);
                         live++;
                 }
         }
         munmap((void *) cur, sizeof(long) * (size_t) W);
         free(pid);
+        free(retry);
         return (long) (S->skipped - skipped0);
 }
 
